@@ -250,6 +250,9 @@ func atomicVariant(mask int) string {
 		// deeper, under a sibling that sorts after "items")
 		y = strings.Replace(y, "        map:\n          elementType:\n            namedType: st\n", "        map:\n          elementType:\n            namedType: st\n            elementRelationship: atomic\n", 1)
 	}
+	if mask&64 != 0 && mask&4 == 0 { // the ELEMENTS of the keyed list become atomic, the list stays associative
+		y = strings.Replace(y, "            namedType: item\n          elementRelationship: associative\n          keys:\n          - name", "            namedType: item\n            elementRelationship: atomic\n          elementRelationship: associative\n          keys:\n          - name", 1)
+	}
 	return y
 }
 
@@ -260,7 +263,7 @@ func genC20Reconcile(e *emitter, tier string, records []*fieldpath.Set) {
 		n = 6000
 	}
 	n /= shardCount
-	for mask := 0; mask < 64; mask++ {
+	for mask := 0; mask < 128; mask++ {
 		y := atomicVariant(mask)
 		p, err := typed.NewParser(typed.YAMLObject(y))
 		if err != nil {
@@ -270,7 +273,7 @@ func genC20Reconcile(e *emitter, tier string, records []*fieldpath.Set) {
 		e.line("(defschema " + quote(id) + " " + sexpSchema(&p.Schema) + ")")
 		tr := nameRef("root")
 		tv, _ := typed.AsTyped(value.NewValueInterface(nil), &p.Schema, tr)
-		for k := 0; k < n/64+1; k++ {
+		for k := 0; k < n/128+1; k++ {
 			var set *fieldpath.Set
 			if len(records) > 0 && e.rng.Intn(2) == 0 {
 				set = records[e.rng.Intn(len(records))]
